@@ -136,6 +136,13 @@ def exec_split(case):
     return r
 
 
+def _sc(v, sc):
+    """exact integer image of a value on the 1/sc grid."""
+    q = Fraction(v) * sc
+    assert q.denominator == 1, (v, sc)
+    return int(q)
+
+
 def _fronts_oracle_1d(x, step, rstep, fstep):
     ind, sg, ri, fa = [], [], [], []
     for i in range(1, len(x)):
@@ -159,6 +166,7 @@ def exec_fronts1(case):
     arr = np.array(x, dtype=_np_dtype(case["dtype"]))
     kw = {} if case.get("axis") is None else {"axis": case["axis"]}
     dflt = case.get("defaults", False)
+    sc = case.get("scale", 1)     # values and steps are multiples of 1/scale (exact in binary floating point)
     tags = {"kind": "fronts1", "mode": mode}
     try:
         if mode == 0:
@@ -175,15 +183,19 @@ def exec_fronts1(case):
             shapes_ok = ind.ndim == 1 and sg.ndim == 1 and ri.ndim == 1 and fa.ndim == 1
             got = ([int(i) for i in ind], [v for v in np.asarray(sg).tolist()], [int(i) for i in ri],
                    [int(i) for i in fa])
-            if not all(float(v).is_integer() for v in got[1]):
-                r.bad.append(("fronts returned non-integer polarities on integer-valued input", tags))
-            got = (got[0], [int(v) for v in got[1]], got[2], got[3])
+            if not all(float(v * sc).is_integer() for v in got[1]):
+                r.bad.append(("fronts returned polarities off the grid of the input values", tags))
+            got = (got[0], [int(round(v * sc)) for v in got[1]], got[2], got[3])
+            e_sg = [_sc(v, sc) for v in e_sg]
             if not shapes_ok or got != (e_ind, e_sg, e_ri, e_fa):
                 what = ["fronts indices", "fronts polarities", "rises", "falls"]
-                k = next((j for j in range(4) if got[j] != (e_ind, e_sg, e_ri, e_fa)[j]), 0)
-                r.bad.append(("%s are %s, the changes of the line are %s" % (
-                    what[k], got[k][:8], (e_ind, e_sg, e_ri, e_fa)[k][:8]), dict(tags, defect=what[k].split()[0])))
-            r.inp = [1, step, rstep, fstep, 0] + [int(v) for v in x]
+                exp = (e_ind, e_sg, e_ri, e_fa)
+                k = next((j for j in range(4) if got[j] != exp[j]), 0)
+                q = next((j for j, (a, b) in enumerate(zip(got[k], exp[k])) if a != b), min(len(got[k]), len(exp[k])))
+                r.bad.append(("%s (%d returned, %d expected) from position %d: %s, the changes of the line give %s" % (
+                    what[k], len(got[k]), len(exp[k]), q, got[k][q:q + 6], exp[k][q:q + 6]),
+                    dict(tags, defect=what[k].split()[0])))
+            r.inp = [1, _sc(step, sc), _sc(rstep, sc), _sc(fstep, sc), 0] + [_sc(v, sc) for v in x]
             r.out = ([len(got[0])] + got[0] + [len(got[1])] + got[1] + [len(got[2])] + got[2]
                      + [len(got[3])] + got[3])
             r.nontrivial = len(e_ind) > 0
@@ -239,6 +251,7 @@ def exec_fronts2(case):
     axis = case["axis"]
     ax = axis % 2
     X = [x[i * nc:(i + 1) * nc] for i in range(nr)]
+    sc = case.get("scale", 1)
     arr = np.array(x, dtype=_np_dtype(case["dtype"])).reshape(nr, nc)
     if case.get("layout") == "fortran":
         arr = np.asfortranarray(arr)
@@ -261,7 +274,8 @@ def exec_fronts2(case):
                 r.bad.append(("2-D fronts/rises/falls do not return (2, K) index arrays", dict(tags, defect="shape")))
                 r.out = [-2]
             else:
-                g_fr = [(int(a), int(b), int(c)) for a, b, c in zip(ind[0], ind[1], np.asarray(sg).tolist())]
+                g_fr = [(int(a), int(b), _sc(c, sc)) for a, b, c in zip(ind[0], ind[1], np.asarray(sg).tolist())]
+                e_fr = [(a, b, _sc(c, sc)) for a, b, c in e_fr]
                 g_ri = [(int(a), int(b)) for a, b in zip(ri[0], ri[1])]
                 g_fa = [(int(a), int(b)) for a, b in zip(fa[0], fa[1])]
                 if (g_fr, g_ri, g_fa) != (e_fr, e_ri, e_fa):
@@ -273,7 +287,7 @@ def exec_fronts2(case):
                 r.out = ([len(g_fr)] + [v for t in g_fr for v in t] + [len(g_ri)] + [v for t in g_ri for v in t]
                          + [len(g_fa)] + [v for t in g_fa for v in t])
                 r.nontrivial = len(e_fr) > 0
-            r.inp = [2, ax, step, rstep, fstep, 0, nr, nc] + [int(v) for v in x]
+            r.inp = [2, ax, _sc(step, sc), _sc(rstep, sc), _sc(fstep, sc), 0, nr, nc] + [_sc(v, sc) for v in x]
         else:
             ri = utils.rises(arr, step=rstep, analog=True, **kw)
             fa = utils.falls(arr, step=fstep, analog=True, **kw)
@@ -401,6 +415,10 @@ def exec_sync_read(case):
                 v = Fraction(int(D[t, col])) * gain_i - (floors_i[c] if use_floor else 0)
                 row.append(1 if v >= thr_i else 0)
             exp_rows.append(row)
+        if len(wcols) != 1 and s.shape[0] != len(sel):
+            r.bad.append(("read_sync returned %d rows for %d samples; the recording has %d sync word(s)" % (
+                s.shape[0], len(sel), len(wcols)),
+                dict(tags, defect="multiword_digital" if len(wcols) > 1 else "no_digital_word")))
         if thr_eff > 0 and len(wcols) == 1:
             if s.shape != (len(sel), 16 + len(acols)):
                 r.bad.append(("read_sync returned shape %s for %d samples, 16 digital + %d analog lines" % (
@@ -585,7 +603,7 @@ def gen_split(ctx):
                           "values": [w - 65536 if w >= 32768 else w for w in chunk]})
     edge = [0, 1, 2, 255, 256, 257, 127, 128, 32767, 32768, 65535, 65534, 0x00FF, 0xFF00, 0x0F0F, 0xF0F0,
             0x5555, 0xAAAA, 0x8000, 0x0080, 0x0100, 0x8001, 0x7FFE]
-    nsmall = 60 if ctx.thorough() else 24
+    nsmall = 300 if ctx.thorough() else 40
     for j in range(nsmall):
         n = rng.choice([1, 2, 3, 16, 17, 40, 100, 180])
         dt = rng.choice(["int16", "uint16", "int32", "int64", "int16", "uint16"])
@@ -617,7 +635,7 @@ def _train(rng, n, p_toggle):
 def gen_fronts(ctx):
     rng = ctx.rng
     cases = []
-    n1 = 900 if ctx.thorough() else 160
+    n1 = 3000 if ctx.thorough() else 400
     for j in range(n1):
         kind = rng.random()
         n = rng.choice([0, 1, 2, 3, 4, 5, 8, 13, 30, 60, 120])
@@ -635,6 +653,11 @@ def gen_fronts(ctx):
             c.update(dtype=rng.choice(["int64", "float64", "int32", "float32"]), x=x,
                      step=rng.choice([s, s, -1]), rstep=rng.choice([s, 1, 0, -1, -2]),
                      fstep=rng.choice([-s, -1, 0, 1, 2]))
+            if rng.random() < 0.4:      # values and steps on a quarter grid: jumps just below / at / above the step
+                c.update(dtype=rng.choice(["float64", "float32"]), scale=4, x=[v / 4.0 for v in x],
+                         step=c["step"] / 4.0 if rng.random() < 0.5 else float(rng.choice([1, 0.5, 0.75, 1.25])),
+                         rstep=rng.choice([0.25, 0.5, 1.0, 0.75, -0.25]),
+                         fstep=rng.choice([-0.25, -0.5, -1.0, -0.75, 0.25]))
         else:                # analog=True: samples within a few ulp of the threshold
             thr = rng.choice([3.0, 1.2, 0.0, -0.5, 2.5, 1e-3])
             fthr = rng.choice([thr, thr, rng.choice([3.0, 1.2, 0.0, -0.5])])
@@ -651,7 +674,7 @@ def gen_fronts(ctx):
             x = [rng.choice(pool) for _ in range(n)]
             c.update(mode=1, dtype="float64", x=x, step=0, rstep=thr, fstep=fthr)
         cases.append(c)
-    n2 = 500 if ctx.thorough() else 110
+    n2 = 2000 if ctx.thorough() else 250
     for j in range(n2):
         nr, nc = rng.choice([(1, 1), (1, 7), (7, 1), (2, 2), (2, 9), (3, 5), (5, 3), (4, 16), (16, 12), (6, 40),
                              (0, 4), (3, 0), (2, 3)])
@@ -671,6 +694,10 @@ def gen_fronts(ctx):
             c.update(dtype=rng.choice(["int64", "float64", "int32"]),
                      x=[rng.randrange(-lv, lv + 1) for _ in range(nr * nc)],
                      step=s, rstep=rng.choice([s, 1, 0, -1]), fstep=rng.choice([-s, -1, 0, 1]))
+            if rng.random() < 0.4:
+                c.update(dtype="float64", scale=4, x=[v / 4.0 for v in c["x"]],
+                         step=float(rng.choice([1, 0.5, 0.75, 1.25, 0.25])),
+                         rstep=rng.choice([0.25, 0.5, 1.0, 0.75]), fstep=rng.choice([-0.25, -0.5, -1.0, -0.75]))
         else:
             thr = rng.choice([3.0, 1.2, 0.0, -0.5])
             pool = [thr, float(np.nextafter(thr, np.inf)), float(np.nextafter(thr, -np.inf)), thr + 1, thr - 1,
@@ -685,20 +712,41 @@ def _analog_column(rng, ns, base, thr_counts):
     """mostly at baseline (so the 10th percentile is the baseline), pulses whose height sits
     around the threshold: thr-1, thr, thr+1 counts above baseline."""
     col = [base] * ns
+    high_duty = rng.random() < 0.35      # mostly high: the median sits on the pulses, the 10th percentile does not
     t = rng.randrange(0, max(1, ns // 4))
     while t < ns:
-        ln = rng.choice([1, 1, 2, 3, 5])
-        h = thr_counts + rng.choice([-2, -1, 0, 0, 1, 1, 2, 50, 500, -500])
+        ln = rng.choice([4, 6, 9]) if high_duty else rng.choice([1, 1, 2, 3, 5])
+        h = thr_counts + rng.choice([-2, -1, -1, 0, 0, 0, 1, 1, 2, 50, 500, -500])
         for u in range(t, min(ns, t + ln)):
             col[u] = base + h
-        t += ln + rng.choice([2, 4, 7, 11, 19])
+        t += ln + (rng.choice([1, 1, 2]) if high_duty else rng.choice([2, 4, 7, 11, 19]))
+    if high_duty and ns >= 5:            # a quiet stretch of > 20 % so that the 10th percentile is the baseline
+        q = ns // 4 + 1
+        a = rng.randrange(0, ns - q + 1)
+        for u in range(a, a + q):
+            col[u] = base
     return col
+
+
+def fixed_sync_read():
+    """hand-picked boundary layouts, always run."""
+    out = []
+    for counts, sl, fl in [([0, 0, 1, 2], [0, 6], "default"), ([0, 0, 0, 2], [2, 3], "default"),
+                           ([0, 0, 0, 3], [5, 10000], None), ([1, 0, 1, 2], [1, 2], 0), ([0, 0, 0, 2], [4, 4], 10),
+                           ([1, 0, 1, 0], [0, 6], None), ([0, 1, 0, 0], [0, 6], "default"), ([0, 0, 2, 0], [3, 3], 0),
+                           ([0, 0, 1, 1], [6, 9], "default"), ([0, 0, 1, 1], [6, 9], 0), ([2, 1, 3, 1], [0, 6], 0),
+                           ([0, 0, 0, 1], None, "default"), ([0, 0, 0, 1], [-1, 10000], "default")]:
+        nc = sum(counts)
+        data = [((t * 7919 + c * 104729) % 65536) - 32768 for t in range(6) for c in range(nc)]
+        out.append({"kind": "sync_read", "typ": "nidq", "counts": counts, "ns": 6, "nc": nc, "range_max": 4,
+                    "data": data, "slice": sl, "threshold": 1.0, "floor": fl})
+    return out
 
 
 def gen_sync_read(ctx):
     rng = ctx.rng
-    cases = []
-    n = 260 if ctx.thorough() else 56
+    cases = fixed_sync_read()
+    n = 1200 if ctx.thorough() else 170
     for j in range(n):
         ns = rng.choice([1, 2, 11, 21, 31, 40, 50, 64])
         u = rng.random()
@@ -755,7 +803,7 @@ def gen_sync_read(ctx):
 def gen_ttl(ctx):
     rng = ctx.rng
     cases = []
-    n = 120 if ctx.thorough() else 30
+    n = 500 if ctx.thorough() else 60
     for j in range(n):
         u = rng.random()
         typ = "nidq" if u < 0.8 else rng.choice(["ap", "lf"])
